@@ -58,6 +58,40 @@ void profile_cfg_more(const std::string &prof, uint64_t seed, RunCfg &c, Rng &r)
     c.allow_cancel_in_cb = 0;
     c.beh_w = {45, 4, 2, 0, 3, 0, 5, 35, 4, 1, 1, 0, 1, 0, 0};
     c.qcache_max_ttl = 0;
+  } else if (prof == "C08") {
+    c.allow_cancel_in_cb = 0;
+    c.use_tokens = 0;
+    c.names.clear();
+    int nb = 3 + (int)r.below(4);
+    for (int i = 0; i < nb; i++) {
+      std::string b = "cache" + std::to_string(i) + (r.chance(0.5) ? ".ex1.test" : ".sub.ex2.test");
+      c.names.push_back(b);
+      if (r.chance(0.6)) { std::string u = b; for (auto &ch : u) ch = (char)toupper((unsigned char)ch); c.names.push_back(u); }
+      if (r.chance(0.6)) c.names.push_back(b + ".");
+    }
+    c.qtypes = {1, 28, 16, 15};
+    int f = ARES_FLAG_NOSEARCH | ARES_FLAG_NOALIASES;
+    if (r.chance(0.7)) f |= ARES_FLAG_EDNS;
+    if (r.chance(0.35)) f |= ARES_FLAG_DNS0x20;
+    if (r.chance(0.3)) f |= ARES_FLAG_STAYOPEN;
+    if (r.chance(0.1)) f |= ARES_FLAG_USEVC;
+    c.flags = f;
+    c.set_domains = 1; c.domains.clear();
+    c.lookups = "b";
+    static const int mt[] = {0, 1, 2, 3, 5, 30, 300, 3600, -1};
+    c.qcache_max_ttl = mt[r.below(9)];
+    c.prof.ttl_choices = {0, 1, 2, 3, 5, 30, 300};
+    if (r.chance(0.3)) c.prof.ttl_choices = {2, 3, 5};
+    c.prof.max_cname_chain = 1; c.prof.max_addrs = 3;
+    c.beh_w = {86, 3, 1, 0, 1, 0, 4, 2, 1, 2, 0, 0, 0, 0, 0};
+    c.zone_w = {55, 15, 25, 5};
+    c.tries = 2; c.timeout_ms = 300 + (int)r.below(500); c.maxtimeout_ms = -1;
+    c.udp_max_queries = -1;
+    c.knobs["kind_mask"] = (1 << K_SEND_DNSREC) | (1 << K_QUERY_DNSREC) | (1 << K_QUERY) | (1 << K_SEND) | (1 << K_GETADDRINFO) | (1 << K_GETHOSTBYNAME) | (1 << K_SEARCH_DNSREC);
+    c.knobs["single_family"] = 1;
+    for (auto &sv : c.servers) sv.cookie_mode = r.chance(0.3) ? CK_GOOD : CK_NONE;
+    c.server_source = 0;
+    c.resolv_conf = "nameserver 10.99.99.99\n";
   } else if (prof == "C10") {
     c.allow_cancel_in_cb = 1;
     if (r.chance(0.5)) c.udp_max_queries = 1 + (int)r.below(3);
@@ -82,6 +116,15 @@ bool profile_plan_more(const RunCfg &c, Rng &r, std::vector<Step> &plan) {
   if (p == "C03") { gen(c, r, plan, weights({{S_REQ, 40}, {S_ADV, 45}, {S_CHUNK, 10}, {S_STALL, 1}, {S_FAULT, 2}}), 20, 120); for (auto &s : plan) if (s.k == S_FAULT) { s.a = FC_SEND; s.b = 0; s.c = 2 + 4 * (r.chance(0.5) ? 1 : 0) + 16 * (int64_t)r.below(20); } return true; }
   if (p == "C06") { gen(c, r, plan, weights({{S_REQ, 22}, {S_ADV, 50}, {S_STALL, 4}, {S_NETOP, 6}, {S_FAULT, 10}, {S_PARTITION, 3}, {S_SETSRV, 3}, {S_REINIT, 1}, {S_CHUNK, 2}}), 20, 120); return true; }
   if (p == "C07") { gen(c, r, plan, weights({{S_REQ, 25}, {S_ADV, 60}, {S_STALL, 8}, {S_NETOP, 4}, {S_PARTITION, 3}, {S_CANCEL, 1}}), 20, 140); return true; }
+  if (p == "C08") {
+    gen(c, r, plan, weights({{S_REQ, 38}, {S_ADV, 34}, {S_STALL, 20}, {S_SETSRV, 4}, {S_REINIT, 2}, {S_NETOP, 2}}), 30, 160);
+    static const int64_t waits[] = {1, 300, 998, 999, 1000, 1001, 1002, 1500, 1999, 2000, 2001, 2999, 3000, 3001, 4999, 5000, 5001, 29999, 30000, 30001, 299999, 300000, 300001, 3600001};
+    for (auto &s : plan) {
+      if (s.k == S_STALL) s.a = waits[r.below(sizeof waits / sizeof *waits)];
+      if (s.k == S_REQ) s.d = (s.d / R_NREACT) * R_NREACT + (r.chance(0.8) ? R_NONE : R_NEWREQ);
+    }
+    return true;
+  }
   if (p == "C10") { gen(c, r, plan, weights({{S_REQ, 28}, {S_ADV, 40}, {S_CANCEL, 3}, {S_STALL, 2}, {S_NETOP, 5}, {S_FAULT, 14}, {S_CHUNK, 3}, {S_SETSRV, 3}, {S_REINIT, 1}, {S_PARTITION, 1}}), 20, 140);
     for (auto &s : plan) if (s.k == S_FAULT && r.chance(0.6)) s.a = (int64_t)r.below(5);   // bias to creation-path faults: socket/setsockopt/bind/connect/getsockname
     return true; }
@@ -161,7 +204,7 @@ static void c03_done(Run &run, Req &r) {
   int rid = resp_of_markers(r.markers);
   if (rid < 0) return;
   const Resp &rs = W.resps[(size_t)rid];
-  if (rs.defect) return;
+  if (rs.defect || rs.tainted) return;
   std::string got = dnsref::dump_msg(r.got.msg, false, false, false, true), exp = dnsref::dump_msg(rs.msg, false, false, false, true);
   run.note("answer_roundtrip_checked");
   if (got != exp) run.violate("C03", "delivered_answer_differs", std::string("answer delivered through the ") + (r.kind == K_SEND || r.kind == K_QUERY || r.kind == K_SEARCH ? "legacy buffer" : "record") + " callback differs from what the server sent\n--- sent\n" + exp + "--- delivered\n" + got);
@@ -289,6 +332,127 @@ static void c06_after(Run &run) {
 }
 
 // ---------------------------------------------------------------------------------------------
+// C08: the cache only replays fresh, matching, successful answers
+// ---------------------------------------------------------------------------------------------
+static std::string cache_name_key(const std::string &n) {
+  std::string k = dnsref::name_lower(n);
+  if (!k.empty() && k.back() == '.') k.pop_back();
+  return k;
+}
+// lifetime the response's own TTLs allow, in seconds (UINT32_MAX = unlimited, 0 = not cacheable)
+static uint64_t resp_ttl_limit(const Resp &rs) {
+  if (rs.rcode == 3) {
+    for (auto &rr : rs.msg.ns) if (rr.type == dnsref::T_SOA) return std::min<uint64_t>(rr.ttl, rr.soa[4]);
+    return 0;
+  }
+  uint64_t m = 0xFFFFFFFFull;
+  for (auto *sec : {&rs.msg.an, &rs.msg.ns, &rs.msg.ar}) for (auto &rr : *sec) { if (rr.type == dnsref::T_OPT || rr.type == dnsref::T_SOA || rr.type == 24) continue; if (rr.ttl < m) m = rr.ttl; }
+  return m;
+}
+static bool c08_resp_matches_request(const Run &run, const Resp &rs, const Req &r, int want_qtype, std::string &why) {
+  if (rs.tx < 0) { why = "response answers no transmission"; return false; }
+  const Tx &tx = W.txs[(size_t)rs.tx];
+  if (tx.msg.qd.empty()) { why = "no question"; return false; }
+  if (tx.msg.opcode() != 0) { why = "opcode"; return false; }
+  if (((tx.msg.flags & dnsref::F_RD) != 0) != (r.rd != 0)) { why = "RD flag differs"; return false; }
+  if (((tx.msg.flags & dnsref::F_CD) != 0) != (r.cd != 0)) { why = "CD flag differs"; return false; }
+  if (tx.msg.qd[0].type != want_qtype) { why = "type differs (" + std::to_string(tx.msg.qd[0].type) + " vs " + std::to_string(want_qtype) + ")"; return false; }
+  if (tx.msg.qd[0].klass != r.qclass) { why = "class differs"; return false; }
+  if (cache_name_key(dnsref::name_to_text(tx.msg.qd[0].name)) != cache_name_key(r.name)) { why = "name differs (" + tx.qname_lc + " vs " + r.name + ")"; return false; }
+  (void)run;
+  return true;
+}
+// Is replaying rs at W.now_us allowed? fills D range info
+static bool c08_fresh(const Run &run, const Resp &rs, int64_t max_ttl, std::string &why, int64_t &elapsed_floor_min, int64_t &elapsed_floor_max) {
+  if (rs.defect) { why = "source packet was not an acceptable response"; return false; }
+  if (rs.rcode != 0 && rs.rcode != 3) { why = "rcode " + std::to_string(rs.rcode) + " must never be replayed"; return false; }
+  if (rs.tc) { why = "truncated response must never be replayed"; return false; }
+  if (max_ttl <= 0) { why = "cache maximum is zero"; return false; }
+  uint64_t L = std::min<uint64_t>((uint64_t)max_ttl, resp_ttl_limit(rs));
+  if (rs.read_times.empty()) { why = "the response was never read from a socket"; return false; }
+  bool ok = false;
+  std::string last;
+  elapsed_floor_min = -1; elapsed_floor_max = -1;
+  for (size_t i = 0; i < rs.read_times.size(); i++) {
+    int64_t t = rs.read_times[i];
+    int64_t D = W.now_us / 1000000 - t / 1000000;
+    if ((uint64_t)D >= L) { last = "cached " + std::to_string(D) + " whole seconds, lifetime allowed " + std::to_string(L) + " s (max " + std::to_string(max_ttl) + ")"; continue; }
+    bool flushed = false;
+    for (auto &e : run.srv_list_events) if ((e.kind == 1 || e.kind == 2) && e.seq > rs.read_seqs[i]) { flushed = true; last = std::string(e.kind == 2 ? "a reinit" : "a server-list change") + " happened after the response was cached"; }
+    if (flushed) continue;
+    ok = true;
+    int64_t e_us = W.now_us - t;
+    int64_t fl = e_us / 1000000;
+    if (elapsed_floor_min < 0 || fl < elapsed_floor_min) elapsed_floor_min = fl;
+    if (fl + 1 > elapsed_floor_max) elapsed_floor_max = fl + 1;
+  }
+  if (!ok) why = last;
+  return ok;
+}
+
+static void c08_done(Run &run, Req &r) {
+  if (run.cfg.profile != "C08") return;
+  if (!r.done_sync && r.in_call == false) {}
+  bool sync = r.in_call;   // completed before the accepting call returned
+  if (!sync || r.tx_at_done != r.tx_at_submit) return;
+  bool dns_kind = r.kind <= K_SEARCH;
+  if (dns_kind && !r.got.has) return;                       // synchronous failure, not a replay
+  if (!dns_kind && r.status != ARES_SUCCESS) return;
+  if (r.kind == K_GETHOSTBYADDR || r.kind == K_GETNAMEINFO) return;
+  run.note("cache_hit");
+  int64_t max_ttl = run.cfg.qcache_max_ttl < 0 ? 3600 : run.cfg.qcache_max_ttl;
+  int want_qtype = r.qtype;
+  if (!dns_kind) want_qtype = r.family == AF_INET6 ? 28 : 1;
+  int rid = resp_of_markers(r.markers);
+  std::string why;
+  int64_t emin = -1, emax = -1;
+  const Resp *src = nullptr;
+  if (rid == -2) { run.note("cache_hit_mixed_sources"); return; }
+  if (rid >= 0) {
+    const Resp &rs = W.resps[(size_t)rid];
+    if (rs.tainted) { run.note("cache_hit_tainted_source"); return; }
+    if (!c08_resp_matches_request(run, rs, r, want_qtype, why)) { run.violate("C08", "hit_wrong_key", "request " + std::string(req_kind_name[r.kind]) + " " + r.name + " type " + std::to_string(want_qtype) + " answered without traffic from a response cached for a different key: " + why); return; }
+    if (!c08_fresh(run, rs, max_ttl, why, emin, emax)) { run.violate("C08", "hit_not_allowed", "request " + std::string(req_kind_name[r.kind]) + " " + r.name + " answered without traffic, but " + why); return; }
+    src = &rs;
+  } else {
+    // no marker in the delivered data (e.g. empty NODATA answer): some eligible cached response must exist
+    bool any = false;
+    for (auto &rs : W.resps) {
+      std::string w2; int64_t a, b;
+      if (c08_resp_matches_request(run, rs, r, want_qtype, w2) && c08_fresh(run, rs, max_ttl, w2, a, b)) { any = true; break; }
+    }
+    if (!any) run.violate("C08", "hit_without_source", "request " + std::string(req_kind_name[r.kind]) + " " + r.name + " answered without traffic although no eligible response was cached for that key");
+    return;
+  }
+  if (emin == 0 && emax >= 1) run.note("cache_hit_within_first_second");
+  if (emin >= 1) run.note("cache_hit_after_a_second");
+  // TTLs visible in the delivered data must be reduced by the time spent cached
+  auto ttl_ok = [&](uint32_t orig, int64_t got) {
+    for (int64_t d = emin; d <= emax; d++) { int64_t exp = (int64_t)orig - d; if (exp < 0) exp = 0; if (got == exp) return true; }
+    return false;
+  };
+  if (dns_kind && r.got.decode_err.empty()) {
+    const std::vector<dnsref::RR> *gs[3] = {&r.got.msg.an, &r.got.msg.ns, &r.got.msg.ar}, *os[3] = {&src->msg.an, &src->msg.ns, &src->msg.ar};
+    for (int s2 = 0; s2 < 3; s2++) {
+      if (gs[s2]->size() != os[s2]->size()) continue;   // content equality is C03's business
+      for (size_t i = 0; i < gs[s2]->size(); i++) {
+        const dnsref::RR &g = (*gs[s2])[i], &o = (*os[s2])[i];
+        if (g.type == dnsref::T_OPT || g.type != o.type) continue;
+        run.note("cache_ttl_checked");
+        if (!ttl_ok(o.ttl, g.ttl)) { run.violate("C08", "ttl_not_reduced", std::string("cache hit through ") + req_kind_name[r.kind] + ": record type " + std::to_string(g.type) + " shows TTL " + std::to_string(g.ttl) + ", original " + std::to_string(o.ttl) + ", cached for " + std::to_string(emin) + ".." + std::to_string(emax) + " s"); return; }
+      }
+    }
+  } else if (r.kind == K_GETADDRINFO) {
+    for (auto &a : r.got.addrs) {
+      for (auto &oa : src->addrs) if (oa.first == a.first) {
+        run.note("cache_ttl_checked");
+        if (!ttl_ok(oa.second, a.second)) { run.violate("C08", "ttl_not_reduced", "cache hit through getaddrinfo: ai_ttl " + std::to_string(a.second) + ", original " + std::to_string(oa.second) + ", cached for " + std::to_string(emin) + ".." + std::to_string(emax) + " s"); return; }
+      }
+    }
+  }
+}
+
+// ---------------------------------------------------------------------------------------------
 // C10: interest invariants at step boundaries
 // ---------------------------------------------------------------------------------------------
 static void c10_after(Run &run) {
@@ -318,7 +482,7 @@ void profile_attach_more(Run &run) {
   run.tx_obs.push_back(c03_tx);
   run.tx_obs.push_back(c06_tx);
   auto prev_done = run.on_done;
-  run.on_done = [prev_done](Run &r, Req &q) { if (prev_done) prev_done(r, q); c03_done(r, q); };
+  run.on_done = [prev_done](Run &r, Req &q) { if (prev_done) prev_done(r, q); c03_done(r, q); c08_done(r, q); };
   auto prev_after = run.after_step;
   run.after_step = [prev_after, p](Run &r) { if (prev_after) prev_after(r); c06_after(r); if (r.cfg.mode == 0) c10_after(r); };
   if (p == "C03") {
@@ -337,6 +501,7 @@ bool profile_nontrivial(const Run &run) {
   if (p == "C06") return base && get("attempt_wait_checked") > 0;
   if (p == "C07") return base && get("hint_checked_with_deadline") > 0 && get("adv_with_expired") > 0;
   if (p == "C10") return base && W.stat.count("sock_udp_opened");
+  if (p == "C08") return base && get("cache_hit") > 0;
   if (p == "C01") return base && (get("req_from_callback") + get("cancel_in_callback") + get("cancel_with_outstanding") > 0 || !W.fault_fired.empty());
   return base;
 }
@@ -345,6 +510,7 @@ const char *profile_rule(const std::string &prof) {
   if (prof == "C03") return "runs are seeded plans (requests by name / setter-built multi-record messages / legacy builder, transport chunking so frames queue behind unsent bytes); non-trivial = at least one setter-built frame or one delivered answer was compared with the reference codec; distinct = distinct trace-shape hash";
   if (prof == "C06") return "runs are seeded plans over per-attempt server outcomes, option extremes (tries up to 100, timeouts 1 ms..INT_MAX, maxtimeout below the floor), list edits; non-trivial = at least one attempt's wait was checked against the envelope and traffic was processed; distinct = distinct trace-shape hash";
   if (prof == "C07") return "runs are seeded plans with silent/slow servers and sleep-exactly/overshoot/stall steps; non-trivial = the hint was compared with a real deadline and at least one loop turn ran with an expired deadline; distinct = distinct trace-shape hash";
+  if (prof == "C08") return "runs are seeded sequences of requests over a small name set (case / trailing-dot / flag / type variants, every API), responses with TTL mixes and negative answers, virtual-time advances around whole-second expiry instants, server-list changes and reinit; non-trivial = at least one request was answered without any transmission (a cache hit judged by the reference model); distinct = distinct trace-shape hash";
   if (prof == "C10") return "runs are seeded plans over UDP/TCP/TFO mixes, per-socket limits, failing socket callbacks and per-call socket faults; non-trivial = sockets were opened and readiness events processed; distinct = distinct trace-shape hash";
   if (prof == "C01") return "runs are seeded API histories with re-entrant callbacks, cancels, socket faults; non-trivial = traffic processed and (a request or cancel issued from a callback, a cancel with requests outstanding, or an injected fault fired); distinct = distinct trace-shape hash (sequence of step kinds, call kinds/outcomes, callback statuses)";
   return "a run is non-trivial when at least one request reached the virtual network and at least one readiness event was processed; distinct = distinct trace-shape hash (sequence of step kinds, call kinds/outcomes, callback statuses)";
